@@ -13,9 +13,11 @@ for pid, d in sorted(md.CLAIMED.items()):
         evidence_file=f'evidence/{pid}.json',
         replay_cmd_template=f'./check {pid} --replay {{path}}',
         engine='mzk-static',
-        level_claimed=dict(category='other', text=d['text'] + ' The complete, current rule list of this check (added since: value-dependence, sibling, nesting, who-may-call and '
-                           'defect-specific rules) is in DESIGN.md §I.3 and in evidence.coverage.rules. Thorough tier = the same rules re-evaluated under the alternative '
-                           'feature configuration + the checker-must-fire mutants (hand-written and sub-agent seeds) of this property.',
+        level_claimed=dict(category='other', text=d['text'] + ' The complete, current rule list of this check (added since: value-dependence, sibling, who-may-call, compile-time-constant and '
+                           'defect-specific rules, and the profile rules N1 — operations, literals and def-use shape of every function in the file scope of the property — '
+                           'and N2 — no added narrowing) is in DESIGN.md §I.3 and in evidence.coverage.rules. Thorough tier = the same rules re-evaluated under the alternative '
+                           'feature configuration + the checker-must-fire mutants (hand-written, reverted repairs and sub-agent seeds) + the behaviour-preserving edits '
+                           '(must stay silent) of this property.',
                            design_ref=d.get('design_ref', 'DESIGN.md Part I §I.3 ' + pid + ' (rules as built); Part II §4 ' + pid + ' (rationale)')),
         level_note=d['note'],
         technique=d['technique'],
